@@ -86,13 +86,18 @@ Section Termination.
 
   Lemma noof_output_admissible x : noof (output_admissible orc x).
   Proof. unfold output_admissible. repeat noof_step. Qed.
+  Lemma noof_output_acceptable x : noof (output_acceptable orc x).
+  Proof.
+    unfold output_acceptable. destruct (Num.ValueNorm.value_has_empty_entries (o_amount x));
+      [apply noof_lift; discriminate | apply noof_output_admissible].
+  Qed.
   Lemma noof_add_output x : noof (add_output orc x).
-  Proof. unfold add_output. apply noof_bind; [apply noof_output_admissible | intros; apply noof_modify]. Qed.
+  Proof. unfold add_output. apply noof_bind; [apply noof_output_acceptable | intros; apply noof_modify]. Qed.
   Lemma noof_fee_for_output x : noof (fee_for_output orc x).
   Proof.
     unfold fee_for_output. apply noof_bind; [apply noof_get | intros s0].
     apply noof_bind; [apply noof_askF | intros fb].
-    apply noof_bind; [apply noof_output_admissible | intros u].
+    apply noof_bind; [apply noof_output_acceptable | intros u].
     apply noof_bind; [apply noof_askF | intros fa]. apply noof_lift. apply checked_sub_fine.
   Qed.
   Lemma noof_unwrap m : noof (unwrap_ma m).
